@@ -66,9 +66,13 @@ func LoadFromData(data []byte) (*api.PodSecurityConfiguration, error) {
 		return internalConfig, nil
 	}
 
-	decodedObj, err := runtime.Decode(scheme.Codecs.UniversalDecoder(), data)
+	decodedObj, gvk, err := scheme.Codecs.UniversalDecoder().Decode(data, nil, nil)
 	if err != nil {
 		return nil, err
+	}
+	// The internal version is registered in the scheme for conversion only; it is not a served version.
+	if gvk != nil && gvk.Version == runtime.APIVersionInternal {
+		return nil, fmt.Errorf("unsupported apiVersion %q", gvk.GroupVersion().String())
 	}
 	configuration, ok := decodedObj.(*api.PodSecurityConfiguration)
 	if !ok {
